@@ -69,7 +69,7 @@ PROPS['C08'] = dict(
 
 PROPS['C09'] = dict(
     level='other', harness='h09', min_t1=5,
-    explanation='T1: EvalConstant returns its value; Cursor.execute re-establishes the cursor state whatever the history (frame: only the cursor fields are written, callee contracts assumed); BeanTable.update returns a copy and never writes the shared table; BeanTable.prepare writes nothing. Bounded (T3): placeholders (positional in textual order / named, in targets, WHERE, ORDER BY, subqueries, repeated names) vs. literal substitution; folded constants vs. per-row evaluation; execution histories (text and parsed-once statements re-used with different parameters, interleaved with other statements) vs. fresh single executions; executemany; deep comparison of the source table.',
+    explanation='T1: a placeholder compiles to a constant holding exactly the bound parameter and a literal to its parsed value (Compiler._placeholder / _constant); constant operands of unary operators, binary operators and pure functions fold to the value the very operator / call node evaluates to, with its datatype, and non-constant ones are left as the node (Compiler._unaryop / _binaryop / _function, _compile and types.function_lookup assumed deterministic); EvalConstant returns its value; Cursor.execute re-establishes the cursor state whatever the history (frame: only the cursor fields are written, callee contracts assumed); BeanTable.update returns a copy and never writes the shared table; BeanTable.prepare writes nothing. Bounded (T3): placeholders (positional in textual order / named, in targets, WHERE, ORDER BY, subqueries, repeated names) vs. literal substitution; folded constants vs. per-row evaluation; execution histories (text and parsed-once statements re-used with different parameters, interleaved with other statements) vs. fresh single executions; executemany; deep comparison of the source table.',
     trusted_base=[], assumptions=[],
 )
 
@@ -186,13 +186,13 @@ TECHNIQUE = {
     'C01': _T1 + 'row loop of execute_select against a recursive specification, node classes, operator bodies, row condition assembled by _compile_select (FROM and WHERE); ' + _T3,
     'C02': _T1 + 'allocator and aggregator update / initialize / finalize with slot frames, group-key resolution and HAVING in _compile_group_by; the group loop: ' + _T3,
     'C03': _T1 + 'NullType order, nullitemgetter closures, uniquify against a recursive specification, ORDER BY key resolution, DISTINCT/LIMIT pipeline of execute_select; the multi-pass sort: ' + _T3,
-    'C04': _T1 + 'type-tag obligations on node classes and column accessors; registry sweep: ' + _T3,
-    'C05': _T1 + 'contracts of the clause compilers (targets, GROUP BY / HAVING, ORDER BY, PIVOT BY, FROM) and of their assembly in _compile_select, get_target_name; statement-level acceptance: ' + _T3,
+    'C04': _T1 + 'type-tag obligations on node classes and column accessors; the compiler selects overloads whose input types are exactly the operand datatypes (binary, BETWEEN, IN, attribute, subscript, coalesce); registry sweep: ' + _T3,
+    'C05': _T1 + 'contracts of the clause compilers (targets, GROUP BY / HAVING, ORDER BY, PIVOT BY, FROM), of their assembly in _compile_select, and of the expression handlers (column resolution, overload selection by exact operand types for unary / binary / BETWEEN / IN / function nodes, attribute and subscript access, coalesce: CompilationError exactly when the rule is violated), get_target_name; statement-level acceptance: ' + _T3,
     'C06': 'bounded native contract evaluation only (parse(print(a)) == a over enumerated ASTs; generated parser == grammar translation): the deciding code is the TatSu runtime, '
            'no function contract on it is discharged - nothing is counted as proved',
     'C07': _T1 + 'description / projection of execute_select, target compilation and naming (_compile_targets, get_target_name), hidden GROUP BY / ORDER BY targets, written targets first (_compile_select); ' + _T3,
     'C08': _T1 + 'frame of the compiler state across nested SELECTs (Compiler._select), IN-subquery node caching; structural obligation that no expression handler writes Compiler.table; composition: ' + _T3,
-    'C09': _T1 + 'Cursor.execute state re-establishment, EvalConstant, BeanTable.update/prepare frames; histories: ' + _T3,
+    'C09': _T1 + 'placeholder / literal constants and constant folding of unary, binary and function nodes in the compiler (folded value = the node evaluated), Cursor.execute state re-establishment, EvalConstant, BeanTable.update/prepare frames; placeholder numbering and histories: ' + _T3,
     'C10': _T1 + 'representation invariant and DB-API postcondition of every Cursor method, Column sequence protocol (all proved, unbounded)',
     'C11': _T1 + '32 column accessors against the naming rule; table iteration: ' + _T3,
     'C12': _T1 + 'aggregator initialize / slot frames; the inventory algebra is Beancount (trusted): ' + _T3,
@@ -206,7 +206,7 @@ TECHNIQUE = {
     'C20': 'ownership / frame obligations generated from the ast of /repo for every write site reachable from the execution entry points (structural, decided syntactically, no solver); '
            'deterministic two/three-thread schedules as bounded native stand-in',
 }
-MIN_T1 = {'C01': 68, 'C02': 85, 'C03': 42, 'C04': 45, 'C05': 100, 'C06': 0, 'C07': 88, 'C08': 26, 'C09': 14, 'C10': 34, 'C11': 47, 'C12': 3, 'C13': 15,
+MIN_T1 = {'C01': 75, 'C02': 85, 'C03': 42, 'C04': 80, 'C05': 140, 'C06': 0, 'C07': 88, 'C08': 26, 'C09': 30, 'C10': 34, 'C11': 47, 'C12': 3, 'C13': 20,
           'C14': 5, 'C15': 5, 'C16': 24, 'C17': 5, 'C18': 58, 'C19': 39, 'C20': 100}
 for _p, _c in PROPS.items():
     _c['technique'] = TECHNIQUE[_p]
